@@ -1,7 +1,7 @@
 (* C01 -- notebook diff followed by patch reproduces the target notebook. *)
 From Coq Require Import List NArith.
 From NB Require Import Base.Res Base.Json Base.PyStr Diff.DiffFormat Diff.Patch Diff.GenericDiff Diff.Wf
-     Diff.StringProofs Diff.StringMaster.
+     Diff.StringProofs Diff.StringMaster Diff.NbProofs Diff.C01Proofs Gen.NbConfig.
 Import ListNotations.
 
 (* cell sources (and every other string): line diff + flattened patch reproduce the target *)
@@ -10,3 +10,25 @@ Theorem source_diff_patch_roundtrip : forall O cfg, opcodes_valid O -> forall n 
             /\ wf_lines (splitlines s) d = true.
 Proof. exact string_roundtrip. Qed.
 Print Assumptions source_diff_patch_roundtrip.
+
+(* the whole notebook differ (diff_notebooks = generic.diff at path "" with the notebook tables of
+   /repo, regenerated into Gen/NbConfig.v): multilevel alignment of cells and outputs under ANY
+   similarity heuristic (the oracles O are unconstrained), source lines, mime bundles, attachments,
+   single outputs.  Whenever it returns a diff d (it raises only on documents that are not valid
+   notebooks: no output_type, no data, mismatched kinds), patching a with d gives exactly b, d is
+   well-formed, d read by the position-wise documented meaning denotes b, and d is empty only if a = b. *)
+Theorem notebook_diff_patch_roundtrip : forall O n a b d,
+  opcodes_valid O -> wfj a = true -> wfj b = true -> sources_are_strings a = true ->
+  diff_ O nb_config n [] a b = Ok d ->
+  (forall m, depth a < m -> patch m a d = Ok b)
+  /\ (forall f, depth a < f -> wf_diff f a d = true)
+  /\ (forall f, depth a < f -> check_diff f a b d = true)
+  /\ (d = [] -> a = b).
+Proof. exact nb_roundtrip. Qed.
+Print Assumptions notebook_diff_patch_roundtrip.
+
+(* the same for ANY differ tables meeting cfg_ok (strict comparisons; a lone predicate is strict
+   equality; no ignoring differ) -- the tables of /repo do: *)
+Theorem notebook_tables_admissible : cfg_ok nb_config = true.
+Proof. exact nb_config_ok. Qed.
+Print Assumptions notebook_tables_admissible.
